@@ -270,6 +270,8 @@ func runC11(c *vc.Ctx) error {
 		lives    int
 	}
 	var plans []plan
+	delims := ExtractDelimiters(RepoDir())
+	c.Ev.Set("grammar_delimiters", delims)
 	dict := ExtractDictionary(RepoDir())
 	c.Ev.Set("dictionary_strict_literals", dict.Strict)
 	c.Ev.Set("dictionary_loose_literals", len(dict.Loose))
@@ -277,6 +279,7 @@ func runC11(c *vc.Ctx) error {
 		conf.Seed = c.Seed
 		conf.Names = names
 		conf.Dict = dict
+		conf.Delims = delims
 		plans = append(plans, plan{&childRun{name: name, variant: variant, conf: conf, dir: filepath.Join(c.Scratch, name)}, wd, lives})
 	}
 	if !c.Thorough() {
@@ -411,7 +414,7 @@ func runLane(c *vc.Ctx, cr *childRun, watchdog time.Duration, names []Registered
 				cr.logged = countLogLines(cr.dir)
 				cr.loggedRandom = 0
 				for _, ll := range readLog(cr.dir) {
-					if !strings.HasPrefix(ll.Kind, "argc-") && ll.Kind != "dict-sys" {
+					if !strings.HasPrefix(ll.Kind, "argc-") && ll.Kind != "dict-sys" && ll.Kind != "grammar-sys" {
 						cr.loggedRandom++
 					}
 				}
@@ -641,7 +644,7 @@ func mergeChildEvidence(c *vc.Ctx, cr *childRun) {
 	case "twin":
 		c.Ev.EvalN(int(res.Counters["twin_cases_conclusive"] + res.Counters["twin_bad_accepted"]))
 	case "batch":
-		c.Ev.EvalN(int(res.Counters["batch_sets"]))
+		c.Ev.EvalN(int(res.Counters["batch_sets"] + res.Counters["batch_round_commands"]))
 	}
 	for k := range res.Applied {
 		c.Ev.Nontrivial(cr.conf.Mode + ":" + k)
